@@ -20,7 +20,7 @@ RULE = ("Hypothesis: bar-grid pieces of 1-6 planned bars with 1-4 tracks; meta_t
         "change, cut note or unequal track lengths). Distinct by case digest.")
 ASSUMPTIONS = ["signature/key changes fall on bar boundaries of the meta track (the statement's precondition)",
                "no event sits exactly on the final tick of a track that ends on a bar line (would start one more, empty, bar)"]
-TIERS = {"quick": dict(shards=8, examples=500), "thorough": dict(shards=16, examples=6000)}
+TIERS = {"quick": dict(shards=8, examples=1500), "thorough": dict(shards=16, examples=15000)}
 
 SIGS = [(4, 4), (3, 4), (2, 4), (6, 8), (3, 8), (5, 8), (2, 2), (1, 4), (12, 8), (7, 8), (4, 4), (2, 8)]
 DEFAULT_VALUES = [24, 12, 6, 16, 8, 4, 36, 18, 9]
